@@ -57,7 +57,7 @@ def run_schedule(text, names, sig, sched, pastify=False, kind='ct', sd_extra=Non
 
 class C05(Prop):
     id = 'C05'
-    rule_added = '35-50% of the cases add interleaved-source schedules (an update carries batches of some variables only, the others omitted or empty; idle polls). 12% under an interface-aware semantics (half: an overridden equality predicate on values mirrored around its constant).'
+    rule_added = '35-50% of the cases add interleaved-source schedules (an update carries batches of some variables only, the others omitted or empty; idle polls). 12% under an interface-aware semantics (half: an overridden equality predicate on values mirrored around its constant). 10% of the aligned cases feed the inputs as fields of one object-typed variable.'
     rule = ('random past dense-time formulas (and, pastified, bounded-future ones) x signals of 2..8 samples per '
             'variable x schedules {all-at-once, one sample at a time, 3 random aligned chunkings, 1 random '
             'per-variable chunking} (thorough: all 2^(n-1) aligned chunkings for n<=6): the concatenated update() '
